@@ -1,7 +1,9 @@
 """Translator validation (Serval-style): run the interpreter in concrete IEEE-double mode on
 inputs drawn from the harness domain and compare, field by field, with the real build."""
 import math
+import os
 import random
+import zlib
 
 import z3
 
@@ -28,7 +30,7 @@ class FloatBuilder(Builder):
 
 def sample_models(case, mir, schema, n, seed):
     """n assignments satisfying the case's assumptions, spread out by random pins"""
-    rnd = random.Random(seed * 7919 + hash(case.name) % 1000)
+    rnd = random.Random(seed * 7919 + zlib.crc32(case.name.encode()) % 1000)
     h = Harness(mir, case.name + ":tv", case.prop)
     b = Builder(h, schema)
     b.fixed = dict(getattr(case, "fixed", {}) or {})
@@ -195,12 +197,13 @@ def diff_json(a, b, path="", out=None, rtol=1e-9, atol=1e-12):
     return out
 
 
-def validate_case(case, mir, schema, native, n, seed):
+def validate_case(case, mir, schema, native, n, seed, models=None):
     for wname, wfields in getattr(schema, "wrappers", {}).items():
         mir.struct_fields[wname] = wfields
         mir.struct_fields_all[wname] = [wfields]
     res = {"vectors": 0, "agree": 0, "disagreements": 0, "skipped": 0, "kinds": {}, "first_disagreement": None, "sample_vector": None}
-    models = sample_models(case, mir, schema, n, seed)
+    if models is None:
+        models = sample_models(case, mir, schema, n, seed)
     for mv in models:
         h = Harness(mir, case.name + ":tvf", case.prop, mode="float", loop_bound=200)
         b = FloatBuilder(h, schema, mv)
@@ -276,6 +279,8 @@ def validate_case(case, mir, schema, native, n, seed):
             res["disagreements"] += 1
             if res["first_disagreement"] is None:
                 res["first_disagreement"] = {"diff": d[:8], "interp_kind": kind, "native_kind": resp["kind"], "inputs": mv}
+                if os.environ.get("VERIF_TV_DEBUG"):
+                    res["debug"] = {"interp": post, "native": resp, "req": req}
         else:
             res["agree"] += 1
             if res["sample_vector"] is None:
